@@ -32,9 +32,9 @@ PROBE_ID = "probe-C38"
 def sizes(tier):
     if tier == "quick":
         return dict(ica_kinds=6, ica_allows={"star", "specific", "empty"}, ica_chunks=4, ica_walks=20, ica_depth=48,
-                    gmp_kinds=5, gmp_chunks=3, gmp_walks=5, gmp_depth=40, sym_len=2, shards=10, vparts=3)
+                    gmp_kinds=5, gmp_chunks=3, gmp_walks=5, gmp_depth=40, sym_len=2, shards=10, vparts=3, sim_parts=1)
     return dict(ica_kinds=8, ica_allows={"star", "specific", "empty", "starplus"}, ica_chunks=6, ica_walks=260, ica_depth=70,
-                gmp_kinds=7, gmp_chunks=8, gmp_walks=40, gmp_depth=60, sym_len=3, shards=14, vparts=6)
+                gmp_kinds=7, gmp_chunks=8, gmp_walks=40, gmp_depth=60, sym_len=3, shards=14, vparts=6, sim_parts=4)
 
 
 def mc_constants(tier):
@@ -117,7 +117,7 @@ def gen_schedules(tier, seed, workdir):
     def sim(module, tag, consts, num, depth, sd):
         outdir = os.path.join(workdir, "sched_" + tag)
         os.makedirs(outdir, exist_ok=True)
-        cfg = os.path.join(d, "%s.cfg" % module)
+        cfg = os.path.join(d, "%s_%s.cfg" % (module, tag))
         consts = dict(consts, FUND=FUND, Depth=depth, OutDir=outdir)
         vk.write_cfg(cfg, "Spec", consts)
         vk.tlc_simulate(d, module, cfg, num, depth + 1, sd, workers=1, timeout=1500)
@@ -126,11 +126,14 @@ def gen_schedules(tier, seed, workdir):
             out.append((tag, json.load(open(f))))
         return out
 
-    jobs = [enum_ica, enum_gmp,
-            lambda: sim("Sched_ICA", "ica-walk", dict(MACRO_PCT=45, HONEST_PCT=30), sz["ica_walks"], sz["ica_depth"], seed * 11 + 1),
-            lambda: sim("Sched_GMP", "gmp-walk", dict(HONEST_PCT=70), sz["gmp_walks"], sz["gmp_depth"], seed * 11 + 2)]
+    jobs = [enum_ica, enum_gmp]
+    parts = sz["sim_parts"]
+    for part in range(parts):      # several TLC simulators side by side, each with its own seed
+        jobs.append(lambda part=part: sim("Sched_ICA", "ica-walk%d" % part, dict(MACRO_PCT=45, HONEST_PCT=30),
+                                          (sz["ica_walks"] + parts - 1) // parts, sz["ica_depth"], seed * 101 + 1 + part))
+    jobs.append(lambda: sim("Sched_GMP", "gmp-walk", dict(HONEST_PCT=70), sz["gmp_walks"], sz["gmp_depth"], seed * 101 + 50))
     scheds = []
-    for lst in vk.pmap(lambda f: f(), jobs, 4):
+    for lst in vk.pmap(lambda f: f(), jobs, 6):
         for i, (tag, s) in enumerate(lst):
             if s["kind"] == "GMP" and not s["cfg"].startswith("gmp-"):
                 s["cfg"] = "gmp-" + s["cfg"]
@@ -264,6 +267,16 @@ FLOORS = {
 }
 
 
+_BINARY = {}
+
+
+def _binary():
+    """The harness is built once per process (replays re-use it)."""
+    if vk.REPO not in _BINARY:
+        _BINARY[vk.REPO] = vk.build_harness("icagmp")
+    return _BINARY[vk.REPO]
+
+
 def run_family(tier, seed, binary=None):
     t0 = time.time()
     workdir = os.path.join(vk.CACHE, "work", FAMILY + vk.repo_tag())
@@ -273,7 +286,7 @@ def run_family(tier, seed, binary=None):
     th = threading.Thread(target=run_mc, args=(tier, result, errors))
     th.start()
     if binary is None:
-        binary = vk.build_harness("icagmp")
+        binary = _binary()
     scheds = gen_schedules(tier, seed, workdir)
     vk.log("generated %d schedules, %d steps (%.1fs)" % (len(scheds), sum(len(s["acts"]) for s in scheds), time.time() - t0))
     sz = sizes(tier)
@@ -327,7 +340,7 @@ def replay(schedule, binary=None):
     shutil.rmtree(workdir, ignore_errors=True)
     os.makedirs(workdir)
     if binary is None:
-        binary = vk.build_harness("icagmp")
+        binary = _binary()
     traces = drive(binary, [schedule], workdir, "replay", 1)
     fails, _, _ = validate(traces, workdir, "replay", 1)
     return [f for f in fails if f[2] not in ("CONF", "X")], traces
